@@ -175,5 +175,53 @@ pub fn main(tier: Tier, _replay: Option<String>) -> i32 {
     for r in results {
         rep.merge(r);
     }
+    // every header field, not just the ones that happen to be non-zero on a young fee-less chain:
+    // a base block whose numeric header fields all carry distinct non-zero values (the projection
+    // does not validate, it copies), through generate_lite_block and through the wire
+    match base_block(3, false) {
+        Ok((w, bi)) => {
+            let mut bytes = w.blocks[bi].bytes.clone();
+            for (k, b) in bytes[181..389].iter_mut().enumerate() {
+                *b = (k as u8 % 250) + 1;
+            }
+            if let Ok(mut full) = Block::deserialize_from_net(&bytes) {
+                let _ = full.generate();
+                for (label, kl) in [("none", vec![]), ("payee0", vec![key(10).public]), ("payer", vec![key(1).public])] {
+                    rep.evaluations += 1;
+                    let ctx = json!({"base": "every numeric header field set to a distinct non-zero value", "keylist": label});
+                    let lite = match catch(|| full.generate_lite_block(kl.clone())) {
+                        Ok(l) => l,
+                        Err(p) => {
+                            rep.violate("panic/generate_lite_block", format!("perturbed header, {}: {}", label, p), ctx);
+                            continue;
+                        }
+                    };
+                    let fa = header_fields(&full);
+                    let fb = header_fields(&lite);
+                    let diff: Vec<_> = fa.iter().zip(fb.iter()).filter(|(x, y)| x != y).map(|(x, _)| x.0).collect();
+                    if !diff.is_empty() {
+                        rep.violate(&format!("header-differs/{}", diff.join("+")), format!("fields {:?} of the lite block differ from the full block's", diff), ctx.clone());
+                    }
+                    let wire = lite.serialize_for_net(BlockType::Full);
+                    match Block::deserialize_from_net(&wire) {
+                        Ok(back) => {
+                            let fc = header_fields(&back);
+                            let diff: Vec<_> = fa.iter().zip(fc.iter()).filter(|(x, y)| x != y).map(|(x, _)| x.0).collect();
+                            if !diff.is_empty() {
+                                rep.violate(&format!("header-differs-after-wire/{}", diff.join("+")), format!("fields {:?}", diff), ctx.clone());
+                            } else {
+                                rep.outcome("all-header-fields-projected");
+                            }
+                        }
+                        Err(e) => rep.violate("lite-block-undecodable", format!("{:?}", e), ctx.clone()),
+                    }
+                }
+            } else {
+                rep.machinery("perturbed base block does not decode".into());
+            }
+        }
+        Err(e) => rep.machinery(format!("base block: {}", e)),
+    }
+    rep.required_outcomes.push("all-header-fields-projected".into());
     rep.finish()
 }
